@@ -24,7 +24,7 @@ TECHNIQUE = ('deterministic simulation: forked database state, one process '
              'statement trace via connection.execute_wrapper vs captured '
              'stdout')
 PLAN = {
-    'quick': {'count': 260, 'max_wall': 170, 'shrink_budget': 20,
+    'quick': {'count': 400, 'max_wall': 170, 'shrink_budget': 20,
               'shrink_wall': 120},
     'thorough': {'count': 5000, 'max_wall': 1500, 'shrink_budget': 50,
                  'shrink_wall': 300},
